@@ -621,7 +621,7 @@ func curveSection(r *hx.Rng, keys []kp, thorough bool) {
 		cv.Add(fmt.Sprintf("KD %s %s %s %s", hx.CoqHex(s[:]), hx.CoqBool(ok), zlit(x), zlit(y)),
 			map[string]interface{}{"kind": "decompress", "class": class, "s": hexs(s[:]), "ok": ok, "x": x.String(), "y": y.String()})
 	}
-	nd := 10
+	nd := 6
 	if thorough {
 		nd = 120
 	}
@@ -668,7 +668,7 @@ func curveSection(r *hx.Rng, keys []kp, thorough bool) {
 		dec(s, "torsion")
 	}
 	// single steps with exact coordinates: Double, GeSub, ToBytes
-	ns := 60
+	ns := 40
 	if thorough {
 		ns = 600
 	}
@@ -1350,7 +1350,7 @@ func main() {
 	// ---------- 5. qualification rule over a stake x height x value grid ----------
 	maxqn := int64(model.Param.MaxQN)
 	stakes := []uint64{0, 1, 2, 3, 4, 5, 6, 10, 14, 15, 16, 20, 24, 25, 26, 30, 99, 100, 1000, 12345, 1000000, 1<<53 - 1, 1 << 53, 1<<53 + 1, 1<<53 + 3, 1 << 63, 1<<64 - 1}
-	nq := 700
+	nq := 500
 	if thorough {
 		nq = 9000
 	}
